@@ -12,9 +12,11 @@ tvars == <<vars, tid, l>>
 Tr == Traces[tid]
 ToSet(s) == {s[i] : i \in 1..Len(s)}
 
-Post(p) ==
-    /\ late' = p.late
-    /\ \A c \in Conns : /\ c # p.late => inflight'[c] = p.inflight[c]          \* in flux inside process_msg (see Pool.tla, LateStart)
+(* p.win: the event lies inside a running shutdown() - C12 does not fix at which step it empties _trash /      *)
+(* _connection nor the order of its closes, so only the flag and what other threads see is compared there; the *)
+(* event that ends shutdown() is compared in full again.                                                        *)
+Full(p) ==
+    /\ \A c \in Conns : /\ c # p.late => inflight'[c] = p.inflight[c]    \* in flux inside process_msg (see Pool.tla, LateStart)
                         /\ c # p.late => orph'[c] = ToSet(p.orph[c])
                         /\ reg'[c] = ToSet(p.reg[c])
                         /\ owed'[c] = ToSet(p.owed[c])
@@ -24,11 +26,16 @@ Post(p) ==
                         /\ signaled'[c] = p.signaled[c]
     /\ cur' = p.cur
     /\ trash' = ToSet(p.trash)
+    /\ \A r \in Reqs : st'[r] = p.st[r]
+
+Post(p) ==
+    /\ late' = p.late
+    /\ IF p.win THEN TRUE ELSE Full(p)
     /\ replacing' = p.replacing
     /\ shutdown' = p.shutdown
     /\ (rep'.ph = "queued") = (p.queued = 1)
     /\ opened' = p.opened
-    /\ \A r \in Reqs : st'[r] = p.st[r] /\ on'[r] = p.on[r]
+    /\ \A r \in Reqs : on'[r] = p.on[r]
 
 TraceInit == tid \in 1..NTraces /\ l = 1 /\ Init
 
